@@ -85,6 +85,22 @@ CHECKS = {
    note='known finding: a stateful in_place_codebook_optimizer (Adam) keeps its moments outside state_dict. Caller-owned optimisers are the caller\'s to checkpoint. torch state_dict machinery is modelled by persist/rebuild.',
    technique='Coq proof (named-store round-trip theorems + computation on regenerated inventories) + behavioural round-trip correspondence (bit-exact trajectories)',
    ref='DESIGN.md section 4 C15'),
+ 'C10': dict(
+   text='Theorems (Coq, axiom-free, ALL extents - no bound on batch, sequence, image, head or feature sizes): with layouts as index maps and grouped axes row-major, the image / channel-first / multi-head (separate and shared, heads folded into the batch) / multi-codebook pipelines return at every position exactly f(input vector at that position) '
+        'and the index of that vector; image layout = flattened channel-last sequence; consequently permuting, splitting, concatenating or re-batching tokens re-indexes outputs and indices identically, a single vector alone = in any batch, and the result depends on its own vector only. '
+        'Tie: every einops/einx pattern at the anchored sites regenerated and pinned; the model\'s index map of each pattern compared with einops itself on index-labelled tensors (several extents per pattern, evaluated in Coq); '
+        'metamorphic pairs on 17 module configurations x layouts in eval / frozen mode (token permutations, batch split/concat, single vs batch, every layout vs flattened channel-last with the same weights).',
+   note='Linear / LayerNorm / SiLU / MLP are assumed position-wise on the last axis (validated by the metamorphic runs); BLAS reassociation is absorbed by a 1e-5 tolerance on projected outputs.',
+   technique='Coq proof (div/mod index-map lemmas, all extents, no functional extensionality) + regenerated patterns + einops-vs-model correspondence in Coq + metamorphic correspondence',
+   ref='DESIGN.md section 4 C10'),
+ 'C13': dict(
+   text='Theorems (Coq, axiom-free, all extents >= 1 incl. every degenerate one): for each layout the quantized output has the shape of the input; indices have the documented shape (input without its feature axis + trailing heads / codebooks / layers axis + leading groups axis); '
+        'rotate_to with squeeze(1) keeps the packed shape for every (tokens, dim), while a bare squeeze() is refuted at dim = 1 (shape [6;6]) and harmless otherwise; squeeze / broadcast lemmas. '
+        'Tie: the squeeze call, index dtype conversions, null-index / null-loss constructors regenerated and pinned; cross product of constructor options x accepted layouts x degenerate extents (batch 1, one token, dim 1, codebook_dim 1, one code, heads = dim, one layer) x train/eval x requires_grad: '
+        'output shape, documented index shape (computed by the Coq model per case), integer dtype, range [0, K), loss shape.',
+   note='two defects repaired (rotate_to bare squeeze; single vector with channel_last=False). Index range theorems are those of C01 / C04 / C09 / C12.',
+   technique='Coq proof (shape calculus over lists of extents) + regenerated call sites + exhaustive-over-options correspondence with the documented shape evaluated in Coq',
+   ref='DESIGN.md section 4 C13'),
  'C12': dict(
    text='Theorems (Coq, axiom-free, all n, cutoff, multiple_of, draws r): the layers that run are exactly the prefix {0..k-1} with k = min(n, round_up(r+1, m)); cutoff < k <= n; m | k or k = n; '
         'dropped layers form a suffix; every admissible k is produced by some in-contract draw; dropout is off when not training / indices supplied / dropout disabled / one layer. '
